@@ -267,6 +267,13 @@ func runLife(tr *Tracer, cur *int64, scn *lifeScn) {
 			r.emit(Ev{"ev": "Stray", "n": 1})
 			r.mc.Feed(mkPacket(11, 1, chid, 0, nil))
 			settle()
+		case "failwrite":
+			// the transport refuses every further write
+			r.emit(Ev{"ev": "WriteFails"})
+			r.mc.mu.Lock()
+			r.mc.failAfter = r.mc.wrote
+			r.mc.mu.Unlock()
+			settle()
 		case "stray":
 			// packets for a channel that never existed: nobody consumes the connection errors they cause
 			r.emit(Ev{"ev": "Stray", "n": op.N})
@@ -531,6 +538,9 @@ func lifeMain(args []string) error {
 			scns = append(scns, lifeScn{K: k, Answers: true, Chan: 1, Extra: 2, Ops: []lifeOp{{Op: "closeother", N: 0}, {Op: "connclose"}, {Op: "next"}, {Op: "send"}}})
 			scns = append(scns, lifeScn{K: k, Answers: true, Chan: 1, Extra: 3, Ops: []lifeOp{{Op: "closeother", N: 1}, {Op: "closeother", N: 0}, {Op: "connclose"}, {Op: "next", Wait: bp(false)}}})
 			// Close while a send is still inside its transport write
+			// the teardown packet cannot be sent: the channel is closed all the same
+			scns = append(scns, lifeScn{K: k, Answers: true, Chan: 1, Ops: []lifeOp{{Op: "next"}, {Op: "failwrite"}, {Op: "close"}, {Op: "next"}, {Op: "send"}, {Op: "close"}}})
+			scns = append(scns, lifeScn{K: k, Answers: true, Chan: 1, Extra: 2, Ops: []lifeOp{{Op: "peer", N: 1}, {Op: "failwrite"}, {Op: "connclose"}, {Op: "next"}, {Op: "next"}, {Op: "send"}}})
 			scns = append(scns, lifeScn{K: k, Answers: true, Chan: 1, SlowFirst: 200, Ops: []lifeOp{{Op: "send"}, {Op: "close"}, {Op: "next"}}})
 			scns = append(scns, lifeScn{K: k, Answers: true, Chan: 0, SlowFirst: 200, Ops: []lifeOp{{Op: "send"}, {Op: "connclose"}}})
 			// sends with cancelled contexts
